@@ -100,6 +100,18 @@ static int check_path(uint64_t a, uint64_t b, int d, const DGraph *g) {
         }
     }
     mc_ctr(4, n);
+    // the same pair asked again straight away (size, path, size, path) must give the same answer: results must not depend on the call before
+    if (n <= 48) {
+        static uint64_t again[64];
+        int64_t n2 = -1;
+        again[n] = CANARY;
+        mc_trans(2);
+        H3Error e1 = gridPathCellsSize(a, b, &n2), e2 = e1 ? e1 : gridPathCells(a, b, again);
+        if (e1 || e2 || n2 != n || again[n] != CANARY || memcmp(again, pbuf, n * 8)) {
+            MC_FAIL_AS(OP_PATH, 2, args, "gridPathCellsSize/gridPathCells(%" PRIx64 ",%" PRIx64 ") asked twice in a row: second answer %d/%d, size %" PRId64 " (first %" PRId64 "), cells %s", a, b, e1, e2, n2, n, e2 || n2 != n ? "n/a" : "differ");
+            return 0;
+        }
+    }
     return 1;
 }
 static void op_from(const McArg *a) {
